@@ -64,7 +64,7 @@ def handle (req : Json) : Except String Json := do
   let op ← getStr req "op"
   match op with
   | "xml.encode" => do
-    let cfg : Cfg := ⟨← getBool req "exprAttrs"⟩
+    let cfg : Cfg := ⟨← getBool req "exprAttrs", ← getBool req "rejectElse"⟩
     let classes ← (← getArr req "classes").toList.mapM parseCls
     let m : Flat := ⟨classes⟩
     match encode cfg m with
